@@ -635,7 +635,7 @@ func (m *Machine) mapFind(fr *frame, mp *Map, key Value) int {
 	}
 	alts = append(alts, rest)
 	idxs = append(idxs, -1)
-	return idxs[m.choose(alts, "mapkey@"+fr.where())]
+	return idxs[m.chooseEx(alts, "mapkey@"+fr.where(), true)]
 }
 
 func (m *Machine) mapInsert(fr *frame, mp *Map, key, val Value) {
